@@ -73,8 +73,12 @@ pub enum SyntaxError {
     InvalidTestUnknown(String, String),
     #[error("Failed to parse argument `{1}` of action `{0}`: {2}")]
     InvalidActionArgument(String, String, String),
+    #[error("Failed to parse argument `{1}` of action `{0}`")]
+    InvalidActionUnknown(String, String),
     #[error("Failed to parse argument `{1}` of global option `{0}`: {2}")]
     InvalidGlobalArgument(String, String, String),
+    #[error("Failed to parse argument `{1}` of global option `{0}`")]
+    InvalidGlobalUnknown(String, String),
     #[error("Unknown error with input: `{0}`")]
     UnknownError(String),
 }
@@ -150,7 +154,9 @@ impl ParserError {
             (Some(t), _, _, Some(d)) => SyntaxError::InvalidTestArgument(t, next, explain(&d)),
             (Some(t), _, _, None) => SyntaxError::InvalidTestUnknown(t, next),
             (_, Some(a), _, Some(d)) => SyntaxError::InvalidActionArgument(a, next, explain(&d)),
+            (_, Some(a), _, None) => SyntaxError::InvalidActionUnknown(a, next),
             (_, _, Some(g), Some(d)) => SyntaxError::InvalidGlobalArgument(g, next, explain(&d)),
+            (_, _, Some(g), None) => SyntaxError::InvalidGlobalUnknown(g, next),
             _ => SyntaxError::InvalidToken(next),
         }
         .into()
